@@ -1,0 +1,60 @@
+//! Macro-based module discovery: what `parse_cfg_if` / `parse_cfg_match` collect from the
+//! `cfg_if!` / `cfg_match!` calls among the top-level items of a text.
+
+use rustc_ast::ast;
+
+use crate::Input;
+use crate::config::Config;
+use crate::parse::macros::cfg_if::parse_cfg_if;
+use crate::parse::macros::cfg_match::parse_cfg_match;
+use crate::parse::parser::Parser;
+use crate::parse::session::ParseSess;
+
+/// One macro call picked by `is_cfg_if` / `is_cfg_match`.
+pub struct MacroMods {
+    /// `cfg_if` or `cfg_match` (the test that picked it: `is_cfg_if` is asked first)
+    pub kind: &'static str,
+    /// the `mod` items the parser returned, in order: `name;` for `mod name;`, `name{}` for an
+    /// inline module; or the parser's message
+    pub mods: Result<Vec<String>, String>,
+}
+
+fn describe(item: &ast::Item) -> String {
+    let name = item.kind.ident().map_or(String::new(), |i| i.to_string());
+    match item.kind {
+        ast::ItemKind::Mod(_, _, ast::ModKind::Loaded(..)) => format!("{name}{{}}"),
+        _ => format!("{name};"),
+    }
+}
+
+/// Parses `text` as a crate and runs the macro-body parsers on its top-level macro calls.
+/// `Err` when the text itself does not parse.
+pub fn macro_mods(text: &str) -> Result<Vec<MacroMods>, String> {
+    let mut config = Config::default();
+    config.set().show_parse_errors(false);
+    rustc_span::create_session_if_not_set_then(config.edition().into(), |_| {
+        let psess = ParseSess::new(&config).map_err(|e| format!("psess:{e}"))?;
+        let krate = Parser::parse_crate(Input::Text(text.to_owned()), &psess)
+            .map_err(|_| "root".to_string())?;
+        let mut out = vec![];
+        for item in &krate.items {
+            let ast::ItemKind::MacCall(ref mac) = item.kind else {
+                continue;
+            };
+            let (kind, res) = if crate::modules::verif_local_cfgif::is_cfg_if(item) {
+                ("cfg_if", parse_cfg_if(&psess, mac))
+            } else if crate::modules::verif_local_cfgif::is_cfg_match(item) {
+                ("cfg_match", parse_cfg_match(&psess, mac))
+            } else {
+                continue;
+            };
+            out.push(MacroMods {
+                kind,
+                mods: res
+                    .map(|items| items.iter().map(describe).collect())
+                    .map_err(|e| e.to_string()),
+            });
+        }
+        Ok(out)
+    })
+}
